@@ -110,6 +110,7 @@ int main (int argc, char **argv)
 	  else if (!strcmp (tok, "OC")) { long l = NEXT (); os = new os_t (al, l); nfin = 0; }
 	  else if (!strcmp (tok, "OA")) { long m = NEXT (), j; unsigned char b[4096]; for (j = 0; j < m; j++) b[j] = (unsigned char) NEXT (); os->top_add_memory (b, m); }
 	  else if (!strcmp (tok, "OB")) { long b = NEXT (); os->top_add_byte ((char) b); }
+	  else if (!strcmp (tok, "OG")) { long m = NEXT (), j; char b[4100]; for (j = 0; j < m; j++) b[j] = (char) NEXT (); b[m] = 0; os->top_add_string (b); }
 	  else if (!strcmp (tok, "OX")) { long m = NEXT (); os->top_expand (m); memset ((char *) os->top_bound () - m, 0xEE, m); }
 	  else if (!strcmp (tok, "OS")) { long m = NEXT (); os->top_shorten (m); }
 	  else if (!strcmp (tok, "ON")) os->top_nullify ();
@@ -127,6 +128,7 @@ int main (int argc, char **argv)
 	  else if (!strcmp (tok, "OC")) { long l = NEXT (); OS_CREATE (os, al, l); os_live = 1; nfin = 0; }
 	  else if (!strcmp (tok, "OA")) { long m = NEXT (), j; unsigned char b[4096]; for (j = 0; j < m; j++) b[j] = (unsigned char) NEXT (); OS_TOP_ADD_MEMORY (os, b, m); }
 	  else if (!strcmp (tok, "OB")) { long b = NEXT (); OS_TOP_ADD_BYTE (os, (char) b); }
+	  else if (!strcmp (tok, "OG")) { long m = NEXT (), j; char b[4100]; for (j = 0; j < m; j++) b[j] = (char) NEXT (); b[m] = 0; OS_TOP_ADD_STRING (os, b); }
 	  else if (!strcmp (tok, "OX")) { long m = NEXT (); OS_TOP_EXPAND (os, m); memset ((char *) OS_TOP_BOUND (os) - m, 0xEE, m); }
 	  else if (!strcmp (tok, "OS")) { long m = NEXT (); OS_TOP_SHORTEN (os, m); }
 	  else if (!strcmp (tok, "ON")) OS_TOP_NULLIFY (os);
@@ -160,6 +162,7 @@ int main (int argc, char **argv)
 	  else if (!strcmp (tok, "VC")) { long l = NEXT (); vlo = new vlo_t (al, l); }
 	  else if (!strcmp (tok, "VA")) { long m = NEXT (), j; unsigned char b[4096]; for (j = 0; j < m; j++) b[j] = (unsigned char) NEXT (); vlo->add_memory (b, m); }
 	  else if (!strcmp (tok, "VB")) { long b = NEXT (); vlo->add_byte ((char) b); }
+	  else if (!strcmp (tok, "VG")) { long m = NEXT (), j; char b[4100]; for (j = 0; j < m; j++) b[j] = (char) NEXT (); b[m] = 0; vlo->add_string (b); }
 	  else if (!strcmp (tok, "VX")) { long m = NEXT (); vlo->expand (m); memset ((char *) vlo->bound () - m, 0xEE, m); }
 	  else if (!strcmp (tok, "VS")) { long m = NEXT (); vlo->shorten (m); }
 	  else if (!strcmp (tok, "VN")) vlo->nullify ();
@@ -170,6 +173,7 @@ int main (int argc, char **argv)
 	  else if (!strcmp (tok, "VC")) { long l = NEXT (); VLO_CREATE (vlo, al, l); vlo_live = 1; }
 	  else if (!strcmp (tok, "VA")) { long m = NEXT (), j; unsigned char b[4096]; for (j = 0; j < m; j++) b[j] = (unsigned char) NEXT (); VLO_ADD_MEMORY (vlo, b, m); }
 	  else if (!strcmp (tok, "VB")) { long b = NEXT (); VLO_ADD_BYTE (vlo, (char) b); }
+	  else if (!strcmp (tok, "VG")) { long m = NEXT (), j; char b[4100]; for (j = 0; j < m; j++) b[j] = (char) NEXT (); b[m] = 0; VLO_ADD_STRING (vlo, b); }
 	  else if (!strcmp (tok, "VX")) { long m = NEXT (); VLO_EXPAND (vlo, m); memset ((char *) VLO_BOUND (vlo) - m, 0xEE, m); }
 	  else if (!strcmp (tok, "VS")) { long m = NEXT (); VLO_SHORTEN (vlo, m); }
 	  else if (!strcmp (tok, "VN")) VLO_NULLIFY (vlo);
